@@ -117,7 +117,7 @@ StopsOK(s) ==
 
 BadStops(obs) == {i \in DOMAIN obs.st : ~StopsOK(obs.st[i])}
 
-HoverOK(h) == h[1] <= h[3] /\ h[3] <= h[2]
+HoverOK(h) == h[1] <= h[3] /\ h[3] < h[2]
 BadHovers(obs) == {i \in DOMAIN obs.hv : ~HoverOK(obs.hv[i])}
 
 \* tokens: <<type, startByte, endByte>> in result order
